@@ -1256,6 +1256,13 @@ func (g *Gen) scenarios() []intent {
 			b := g.browser()
 			out := []SymStep{g.loginStep(b, u, Desc{K: "pw", U: u}, false)}
 			app := SymStep{Kind: "req", Req: &SymReq{Browser: b, Method: "GET", Route: "App", Arg: pickS(g.rng, "00u0001", "00r0001", "10n0001")}}
+			if c.has("remember") && g.rng.Intn(2) == 0 {
+				// remembered login, an application key in the session, and the remember middleware BEHIND the expire
+				// middleware: the expired request is logged in again from the cookie - and still loses everything
+				// the whitelist does not name
+				out = []SymStep{g.loginStep(b, u, Desc{K: "pw", U: u}, true), {Kind: "plant", U: b, PW: &Desc{K: "lit", V: pickS(g.rng, "w1", "w2")}}}
+				app.Req.Arg = pickS(g.rng, "00u0011", "00r0011")
+			}
 			for i := 0; i < 2+g.rng.Intn(3); i++ {
 				e := int64(c.ExpireAfter)
 				out = append(out, SymStep{Kind: "tick", D: []int64{5, e / 2, e - 4, e + 4, 2 * e}[g.rng.Intn(5)]}, app)
